@@ -36,6 +36,8 @@ type C05Op struct {
 }
 
 type C05Case struct {
+	// Sched: schedule vector for goroutines / channels / select choices of the code under test (single-task case body = first task)
+	Sched []uint16 `json:"sched,omitempty"`
 	// Big: when > 0 the first database is blown up to this many entries (answers longer than 100 / 1000 results)
 	Big      int      `json:"big,omitempty"`
 	DBs      [][]Cmd  `json:"dbs"`
@@ -126,6 +128,9 @@ func genC05(rt *rapid.T) C05Case {
 	})
 	minLen := rapid.SampledFrom([]int{1, 4, 12}).Draw(rt, "minlen")
 	c.Ops = rapid.SliceOfN(opGen, minLen, tierN(40, 100)).Draw(rt, "ops")
+	if rapid.IntRange(0, 3).Draw(rt, "hassched") == 0 {
+		c.Sched = genSchedule(rt, 40)
+	}
 	return c
 }
 
@@ -174,6 +179,10 @@ func optDiff(a, b Opts) []string {
 }
 
 func runC05(c C05Case) *Outcome {
+	return scheduledOutcome(c.Sched, func() *Outcome { return runC05Body(c) })
+}
+
+func runC05Body(c C05Case) *Outcome {
 	o := &Outcome{Probes: map[string]int{}}
 	if c.Big > 0 && len(c.DBs[0]) > 0 {
 		c.DBs = append([][]Cmd{blowUp(c.DBs[0], c.Big)}, c.DBs[1:]...)
